@@ -50,7 +50,8 @@ var filler = []string{"alpha", "beta", "gamma", "delta", "total", "north", "sout
 // genOpts switches generator features (used for attribution by counterfactual
 // and to keep a clean half of the case list).
 type genOpts struct {
-	StaleCovered bool // covered cells of a merged region may carry a hidden value
+	StaleCovered  bool // covered cells of a merged region may carry a hidden value
+	RowRefOmitted bool // <row> elements may omit the optional r attribute
 }
 
 // genWorkbook builds one workbook and its oracle. Every aspect draws from its
@@ -367,6 +368,22 @@ func genWorkbook(c *fw.Ctx, idx int, o genOpts) (*ooxml.XWorkbook, *wbModel) {
 			}
 		default:
 			f.add("rows=sorted")
+		}
+		// optional r attribute of <row> omitted: rows must then be written
+		// 1,2,3,… without gaps (empty <row/> elements fill the holes)
+		if o.RowRefOmitted && ro.Intn(8) == 0 && len(rows) > 0 {
+			mx := 0
+			for _, rr := range rows {
+				if rr > mx {
+					mx = rr
+				}
+			}
+			rows = rows[:0]
+			for rr := 0; rr <= mx; rr++ {
+				rows = append(rows, rr)
+			}
+			sh.OmitRowR = true
+			f.add("row-r-attribute-omitted")
 		}
 		sh.RowOrder = rows
 		sm.Rows = 0
